@@ -66,6 +66,9 @@ type monC02 struct {
 	multi      bool
 	clampSeen  bool
 	skipDay    bool
+	liveG      *hermes.GlobalVarsMain
+	kernelRng  *Rng
+	kClamp     float64
 }
 
 func (m *monC02) Event(ev *hermes.VerifEvent, rc *RunCtx) {
@@ -73,7 +76,14 @@ func (m *monC02) Event(ev *hermes.VerifEvent, rc *RunCtx) {
 	if g != nil && g.N < 2 {
 		return // the statement is for profiles of at least two layers
 	}
+	if len(ev.Site) > 7 && ev.Site[:7] == "nclamp:" && m.liveG != nil && ev.G != m.liveG {
+		m.kClamp += ev.Amount // clamp inside a kernel call on a copy of the state
+		return
+	}
 	switch ev.Site {
+	case "input_done":
+		m.liveG = ev.G
+		m.kernelRng = NewRng(mix(rc.Sc.Seed, uint64(rc.Sc.Index)+4242))
 	case "day_begin":
 		m.begin = snapN(g)
 		m.measToday = measurementDay(g, ev.Zeit)
@@ -110,6 +120,9 @@ func (m *monC02) Event(ev *hermes.VerifEvent, rc *RunCtx) {
 			}
 		} else if m.haveLast && m.preNitro.c1 != m.lastPost {
 			rc.Violate("C02", "n_changed_outside_n_routines", fmt.Sprintf("profile mineral N changed between N sub-steps (%.17g -> %.17g)", m.lastPost, m.preNitro.c1), ev.Zeit, 0, nil)
+		}
+		if ev.Subd == 1 && m.kernelRng != nil && !m.skipDay && m.kernelRng.Bool(0.08) {
+			m.kernel(ev, rc)
 		}
 	case "nclamp:carray", "nclamp:ckonz", "nclamp:source":
 		if !(ev.Amount >= 0) {
@@ -227,6 +240,69 @@ func (m *monC02) Event(ev *hermes.VerifEvent, rc *RunCtx) {
 		if end.ums-m.pre.ums > 0 {
 			rc.Cov("days_fertiliser_dissolving", 1)
 		}
+	}
+}
+
+// kernel: the real transport routine on a copy of the live state in which mineral N was mixed over the top layers the
+// way a tillage on that day does it (after the crop routine has fixed its demand) and / or the demand of some layers
+// exceeds what they hold: the uptake must be limited BEFORE it is accumulated, so the sub-step balance still closes.
+func (m *monC02) kernel(ev *hermes.VerifEvent, rc *RunCtx) {
+	g := *ev.G // copy: arrays by value; the routine touches no slice or map
+	var l hermes.NitroSharedVars
+	r := m.kernelRng
+	n := g.N
+	if r.Bool(0.5) {
+		k := r.Range(1, mini(4, n))
+		s := 0.0
+		for z := 0; z < k; z++ {
+			s += g.C1[z]
+		}
+		for z := 0; z < k; z++ {
+			g.C1[z] = s / float64(k)
+		}
+	}
+	engaged := false
+	for z := 0; z < n; z++ {
+		if r.Bool(0.4) {
+			g.PE[z] = g.C1[z] * r.Uniform(0, 2)
+		}
+		if g.PE[z] > 0 && g.PE[z] > g.C1[z]-0.5 {
+			engaged = true
+		}
+	}
+	wdt := ev.Wdt
+	before := snapN(&g)
+	pes0 := g.PESUM
+	m.kClamp = 0
+	hermes.VerifNmove(wdt, 1, ev.Zeit, &g, &l)
+	after := snapN(&g)
+	dn := 0.0
+	for z := 0; z < n; z++ {
+		dn += g.DN[z]
+	}
+	dC := after.c1 - before.c1
+	upt := after.aufna - before.aufna
+	rhs := dn*wdt - upt - (after.outsum - before.outsum) - (after.drainloss - before.drainloss)
+	res := dC - rhs - m.kClamp
+	if math.Abs(res) > tolFor(after.c1, dn*wdt, upt, after.outsum-before.outsum, m.kClamp)+counterUlp(after) || !finite(res) {
+		sig := "kernel_substep_n_balance"
+		if g.DRAIDEP >= 1 && g.DRAIDEP <= n && g.QDRAIN > 0 && g.Q1[g.DRAIDEP] < 0 {
+			sig = "drain_layer_upward_flux"
+		}
+		rc.Violate("C02", sig, fmt.Sprintf("transport routine on a state with mixed top-soil N / demand above the layer's content: mineral N change %.17g != source %.17g - uptake booked %.17g - leaching %.17g - drain loss %.17g + clamp %.17g (residual %.3g kg N/ha, uptake limit engaged=%v)", dC, dn*wdt, upt, after.outsum-before.outsum, after.drainloss-before.drainloss, m.kClamp, res, engaged),
+			ev.Zeit, 0, map[string]float64{"residual": res})
+	}
+	inWin := g.SAAT[g.AKF.Index] > 0 && ev.Zeit >= g.SAAT[g.AKF.Index] && ev.Zeit <= g.ERNTE2[g.AKF.Index]
+	fix := 0.0
+	if inWin {
+		fix = g.SCHNORR
+	}
+	if math.Abs((g.PESUM-pes0)-upt-fix) > tolFor(g.PESUM, upt) {
+		rc.Violate("C02", "kernel_uptake_credit", fmt.Sprintf("transport routine: crop N gained %.17g, the cumulative uptake %.17g (+ fixation %.17g)", g.PESUM-pes0, upt, fix), ev.Zeit, 0, nil)
+	}
+	rc.Cov("kernel_transport_calls", 1)
+	if engaged {
+		rc.Cov("kernel_uptake_limit_engaged", 1)
 	}
 }
 
@@ -355,7 +431,7 @@ func (m *monC07) Event(ev *hermes.VerifEvent, rc *RunCtx) {
 			}
 			if !harvest {
 				a := g.AKF.Index
-				inWin := ev.Zeit >= g.SAAT[a] && ev.Zeit <= g.ERNTE2[a]
+				inWin := g.SAAT[a] > 0 && ev.Zeit >= g.SAAT[a] && ev.Zeit <= g.ERNTE2[a] // a crop of this rotation entry has been sown
 				exp := sumPE
 				if inWin {
 					exp += g.SCHNORR
